@@ -12,7 +12,8 @@ RULE = ("Cases: one recording (16-300 samples, drawn recipes) deployed at d in [
         "polarised-motion scenario (true azimuth theta, deployment d), a target x for preprocess (incl. 0 and +-360), and a "
         "processing configuration (operator, bandwidth, taper, centre frequencies, azimuth, azimuth set, two percentiles, one "
         "rotation-invariant method). Non-trivial = the rotation angle is >= 1 degree away from every multiple of 90 and the "
-        "horizontals are not proportional; distinct by SHA-1 of the case.")
+        "horizontals are not proportional; distinct by SHA-1 of the case."
+        ' Scale pass: recordings of 2^15 to 3x2^20 samples (rotation algebra, polarisation scenario and preprocess only).')
 ASSUMPTIONS = [
     "rotation identities compared with atol 1e-11 x max|horizontal| (float64 rounding of sin/cos)",
     "processing relations compared with rtol 1e-9; azimuthal vs. single azimuth bit for bit",
